@@ -11,10 +11,12 @@ Driver of C10. Payloads (space separated):
 * `B <op> …` with `N<p>` NewChildMonitor(p), `A<k>` Activate, `S<k>` Skip, `F<k>` Finish of the
   monitor number `k` (0 = the root monitor). Result: `HighestPriority()` after every op, `P` for an
   assertion panic (the sequence ends there).
-* `K <workers> <root>|<root>…`, root = `<parent>:<prio>:<trig>:<fail>,…` (node id = position;
-  parent `r` = added from outside before the worker runs; prio `R` = added with the root monitor
-  itself). One worker: per root `id@hp.id@hp… err=<ids>`; several workers: per root
-  `set=<sorted ids> err=<sorted ids>` (the dequeue order is checked on the recorded trace).
+* `K <workers> <flag> <root>|<root>…`, root = `<parent>:<prio>:<rules>,…` (event id = position;
+  parent `r` = added from outside before the worker runs, `e.k` = added by rule `k` of event `e`;
+  prio `R` = added with the root monitor itself; rules `p/f;p/f…` = priority/fails in declaration
+  order, `-` = no rule triggers). One worker: per root `e/k@hp.… err=<e/k…> end=<hp>` (action
+  starts in order); several workers: per root `set=<sorted e/k> err=… end=…` (the dequeue order
+  is checked on the recorded trace).
 * with argument `trace`: a TaskQueue trace `+<root>:<prio>:<mon>` / `-<root>:<mon>` … → `ok` / `bad <k>`.
 -/
 namespace Ecal.Drv.C10
@@ -27,10 +29,12 @@ def sortInts (l : List Int) : List Int := l.mergeSort (fun a b => decide (a ≤ 
 def sortNats (l : List Nat) : List Nat := l.mergeSort (fun a b => decide (a ≤ b))
 
 def parseRule (i : Nat) (s : String) : Option (Rule × Bool) :=
-  match s.splitOn ":" with
-  | [p, f, k] => do
+  let mk (p f k : String) : Option (Rule × Bool) := do
     let p ← p.toInt?
-    some ({ name := i, prio := p, fails := f == "1" }, k == "1")
+    some ({ name := i, prio := p, fails := f != "0" }, k == "1")
+  match s.splitOn ":" with
+  | [p, f, k] => mk p f k
+  | [p, f, k, _] => mk p f k        -- 4th field: fractional digit of a sink priority (floored away)
   | _ => none
 
 /-- history letters: s Start, f Finish, r Reset, a AddRule (all rules), T / F set the flag,
@@ -80,38 +84,115 @@ def runBook (ops : List String) : String :=
       (ops.filter (fun | .activate _ => true | .skip _ => true | _ => false)).length ≥ 2
     joinOr "," out ++ (if nt then "\tnt=1" else "")
 
+def parseRules (s : String) : Option (List (Int × Bool)) :=
+  if s == "-" then some [] else
+  (s.splitOn ";").mapM fun r =>
+    match r.splitOn "/" with
+    | [p, f] => p.toInt?.map fun p => (p, f == "1")
+    | _ => none
+
 def parseNode (s : String) : Option Cascade.Node :=
   match s.splitOn ":" with
-  | [par, p, t, f] => do
-    let parent ← if par == "r" then some none else par.toNat?.map some
+  | [par, p, rs] => do
+    let parent ← if par == "r" then some none else
+      match par.splitOn "." with
+      | [e, k] => do some (some ((← e.toNat?), (← k.toNat?)))
+      | _ => none
     let prio ← if p == "R" then some none else p.toInt?.map some
-    some { parent := parent, prio := prio, trig := t == "1", fails := f == "1" }
+    let rules ← parseRules rs
+    some { parent := parent, prio := prio, rules := rules }
   | _ => none
 
-def runRoot (one : Bool) (s : String) : String :=
+def sortPairs (l : List (Nat × Nat)) : List (Nat × Nat) :=
+  l.mergeSort (fun a b => decide (a.1 < b.1 ∨ (a.1 = b.1 ∧ a.2 ≤ b.2)))
+
+def showPair (p : Nat × Nat) : String := s!"{p.1}/{p.2}"
+
+def runRoot (one : Bool) (flag : Bool) (s : String) : String :=
   match (s.splitOn ",").mapM parseNode with
   | none => "bad-payload"
   | some nodes =>
-    let st := Cascade.runScript Book.current nodes
+    let st := Cascade.runScript Book.current stableSort flag nodes
     if st.bad then "MODEL-ASSERT" else
     let started := st.started.reverse
-    let errs := joinOr "." ((sortNats st.errs).map toString)
+    let errs := joinOr "." ((sortPairs st.errs).map showPair)
+    let fin := s!" end={Book.highestPriority st.rm}"
     if one then
-      joinOr "." (started.map fun (i, hp) => s!"{i}@{hp}") ++ " err=" ++ errs
+      joinOr "." (started.map fun (p, hp) => s!"{showPair p}@{hp}") ++ " err=" ++ errs ++ fin
     else
-      "set=" ++ joinOr "." ((sortNats (started.map (·.1))).map toString) ++ " err=" ++ errs
+      "set=" ++ joinOr "." ((sortPairs (started.map (·.1))).map showPair) ++ " err=" ++ errs ++ fin
 
-def runCascade (workers : String) (roots : String) : String :=
+/-- does the clamping of negative monitor priorities in `PriorityQueue.Push` change the order in
+    which this root's events are taken? (compare with the same script shifted into the range ≥ 0) -/
+def clampMatters (flag : Bool) (s : String) : Bool :=
+  match (s.splitOn ",").mapM parseNode with
+  | none => false
+  | some nodes =>
+    let shifted := nodes.map fun n => { n with prio := some (n.prio.getD 0 + 8) }
+    (Cascade.runScript Book.current stableSort flag nodes).popped
+      != (Cascade.runScript Book.current stableSort flag shifted).popped
+
+def runCascade (workers flag : String) (roots : String) : String :=
   let rs := roots.splitOn "|"
   let nodes : Nat := (rs.map fun r => (r.splitOn ",").length).foldl (· + ·) 0
-  "|".intercalate (rs.map (runRoot (workers == "1"))) ++ (if nodes ≥ 3 then "\tnt=1" else "")
+  "|".intercalate (rs.map (runRoot (workers == "1") (flag == "1"))) ++ " hp=ok" ++ (if nodes ≥ 3 then "\tnt=1" else "")
+    ++ (if workers == "1" && rs.any (clampMatters (flag == "1")) then "\tdev=neg" else "")
+
+/-- `Q`: sortutil.PriorityQueue driven directly; the model is the real representation `HPQ`.
+    ops: `+<prio>` Push (value = number of the push), `-` Pop, `k` Peek, `c` Clear.
+    Result per op: `L` / `p<val>` / `k<val>` / `c` (`n` = nil), followed by the slice layout
+    `[val:prio,…]` after every op when there are at most 48 ops, otherwise only once at the end. -/
+def layout (q : HPQ) : String :=
+  "[" ++ ",".intercalate (q.heap.map fun it => s!"{it.val}:{it.prio}") ++ "]"
+
+def runQ (ops : List String) : String :=
+  let every := ops.length ≤ 48
+  let rec go (q : HPQ) (n : Nat) (ops : List String) (acc : List String) : List String × HPQ :=
+    match ops with
+    | [] => (acc.reverse, q)
+    | op :: rest =>
+      let (tok, q', n') :=
+        if op.startsWith "+" then
+          ("L", q.push n ((op.drop 1).toString.toInt?.getD 0), n + 1)
+        else if op == "-" then
+          match q.pop with
+          | some (it, q') => (s!"p{it.val}", q', n)
+          | none => ("pn", q, n)
+        else if op == "k" then
+          match q.peek with
+          | some it => (s!"k{it.val}", q, n)
+          | none => ("kn", q, n)
+        else ("c", q.clear, n)
+      go q' n' rest ((if every then tok ++ layout q' else tok) :: acc)
+  let (out, q) := go {} 0 ops []
+  " ".intercalate out ++ " end" ++ layout q ++ (if ops.length ≥ 4 then "\tnt=1" else "")
+
+/-- `validate` mode: `<V payload> ## exec=<names> err=<names> kids=<n>` → `ok` / `bad` -/
+def parseNames (s : String) : Option (List Nat) :=
+  if s == "-" then some [] else (s.splitOn ".").mapM (·.toNat?)
+
+def validateCase (line : String) : String :=
+  match line.splitOn " ## " with
+  | [payload, observed] =>
+    match payload.splitOn " ", observed.splitOn " " with
+    | "V" :: flag :: rs, [ex, er, kd] =>
+      match (rs.zipIdx.map fun (s, i) => parseRule i s).mapM id,
+            parseNames ((ex.drop 5).toString), parseNames ((er.drop 4).toString), ((kd.drop 5).toString).toNat? with
+      | some rules, some exec, some errs, some kids =>
+        let want := (exec.filter fun i => (rules[i]?.map (·.2)).getD false).length
+        if validRun (flag == "1") (rules.map (·.1)) exec errs && kids == want then "ok" else "bad"
+      | _, _, _, _ => "bad-payload"
+    | _, _ => "bad-payload"
+  | _ => "bad-payload"
 
 def runCase (payload : String) : String :=
   match payload.splitOn " " with
   | "R" :: flag :: rules => runRules flag rules
   | "S" :: rules => runRules "1" rules
   | "B" :: ops => runBook ops
-  | ["K", workers, roots] => runCascade workers roots
+  | "Q" :: ops => runQ ops
+  | "V" :: _ => "validated"
+  | ["K", workers, flag, roots] => runCascade workers flag roots
   | _ => "bad-payload"
 
 def parseQEv (s : String) : Option QEv :=
@@ -125,10 +206,14 @@ def traceCase (payload : String) : String :=
   match (payload.splitOn " ").mapM parseQEv with
   | none => "bad-payload"
   | some evs =>
-    match checkTrace [] 0 evs with
-    | none => "ok"
-    | some k => s!"bad {k}"
+    -- replayed on the abstract queue and on the real representation (container/heap slice)
+    match checkTrace [] 0 evs, checkTraceH [] 0 evs with
+    | none, none => "ok"
+    | some k, _ => s!"bad {k}"
+    | none, some k => s!"bad-heap {k}"
 
 def run (args : List String) : IO Unit :=
-  if args == ["trace"] then lineLoop traceCase else lineLoop runCase
+  if args == ["trace"] then lineLoop traceCase
+  else if args == ["validate"] then lineLoop validateCase
+  else lineLoop runCase
 end Ecal.Drv.C10
